@@ -14,6 +14,8 @@ def key(name, call):
         arg = eval(m.group(1)) if m else ''
     except Exception:
         arg = ''
+    if name in ('_c10_absolute_absolute', '_c10_output_contents_verbatim'):
+        return '%s|%r' % (name, arg)          # never part of the open finding (which needs a relative spelling)
     if name == '_c10_same_name_two_stages':
         return '%s|suffix-overlap=True' % name
     rep = REP.get(name)
